@@ -119,3 +119,28 @@ class Reader:
 
     def token_unquoted(self):
         return PE.run("Token", "is_unquoted_string", self.ctx)["T"]
+
+
+def dialect_encoder_pairings(repo):
+    """(encoder class, grammar class, decoder class) of every row of pvl_validate.dialects (AST)."""
+    mod = repo.modules.get("pvl_validate")
+    out = []
+    if mod is None or "dialects" not in mod.assigns:
+        return out
+    inst = {}
+    for name, val in mod.assigns.items():
+        if isinstance(val, ast.Call) and isinstance(val.func, ast.Name) and repo.has_cls(val.func.id):
+            inst[name] = val.func.id
+    d = mod.assigns["dialects"]
+    if isinstance(d, ast.Call):
+        for kw in d.keywords:
+            row = kw.value
+            if not isinstance(row, ast.Call):
+                continue
+            for k in row.keywords:
+                if k.arg == "encoder" and isinstance(k.value, ast.Call) and repo.has_cls(norm(k.value.func)):
+                    a = {x.arg: norm(x.value) for x in k.value.keywords}
+                    g, dd = inst.get(a.get("grammar")), inst.get(a.get("decoder"))
+                    if g and dd:
+                        out.append((norm(k.value.func), g, dd))
+    return out
